@@ -3016,8 +3016,11 @@ func getVarDependencies(nod *node) (deps []*node) {
 	walk = func(n *node) bool {
 		switch n.kind {
 		case selectorExpr:
-			// A method value or a method call refers to the method.
+			// A method value, a method call or a method expression refers to the method.
 			if m, ok := n.val.(*node); ok && n.action == aGetMethod {
+				visitFunc(m)
+			} else if n.action == aGetMethod && n.child[0].typ != nil && n.typ.cat == funcT {
+				m, _ := n.child[0].typ.lookupMethod(n.child[1].ident)
 				visitFunc(m)
 			}
 			return true
@@ -3680,13 +3683,13 @@ func matchSelectorMethod(sc *scope, n *node) (err error) {
 	if m != nil {
 		n.action = aGetMethod
 		if n.child[0].isType(sc) {
-			// Handle method as a function with receiver in 1st argument.
-			n.val = m
-			n.findex = notInFrame
-			n.gen = nop
-			n.typ = &itype{}
-			*n.typ = *m.typ
-			n.typ.arg = append([]*itype{n.child[0].typ}, m.typ.arg...)
+			// Handle method expression: a function with receiver in 1st argument. The method
+			// must be in the method set of the type, possibly promoted from an embedded field.
+			if _, ok := n.typ.dynMethods()[name]; !ok {
+				return n.cfgErrorf("invalid method expression %s.%s (needs pointer receiver (*%s).%s)", n.typ.id(), name, n.typ.id(), name)
+			}
+			n.gen = getMethodExpr
+			n.typ = funcOf(append([]*itype{n.typ}, m.typ.arg...), m.typ.ret, withNode(m.typ.node), withScope(m.typ.scope))
 		} else {
 			// Handle method with receiver.
 			n.gen = getMethod
